@@ -5,7 +5,7 @@
    Not mechanised: the waitFor-times-out half of the statement, the reduction from instruction-level
    interleavings to visible-action interleavings, the C++ memory model. *)
 From Coq Require Import List Arith NArith ZArith Bool.
-From EV Require Import QModel QBalance QConc QConcInv QConcEmpty.
+From EV Require Import QModel QBalance QConc QConcInv QConcEmpty QConcWake.
 From EV.gen Require GenQ.
 Import ListNotations.
 
@@ -83,6 +83,37 @@ Example C11_threads_example :
   g_putbacks (shs cfg) = 0 /\ cec (shs cfg) = 0%Z /\
   match nth_error (ths cfg) 2 with
   | Some o => lseen (lo o) = true /\ length (lsnap (lo o)) = 1 /\ lsnap (lo o) = consumed (shs cfg)
+  | None => False
+  end.
+Proof. vm_compute. repeat split; reflexivity. Qed.
+
+(* THE waitFor HALF.  waitFor takes the same snapshot ghost as emptyQueue when the call begins (lsnap).  Under the
+   interference other threads can exert, for every state in which the call begins (QConcWake.v, the rely/guarantee
+   calculus): when waitFor returns false it has timed out and its last evaluation of doCanProcess() either
+     - read the list empty (ghost lseen) and then the in-dispatch counter 0 (lbe: emptyQueue() answered true), or
+     - loaded a non-zero queueNotifyCounter: a DisableQueueNotify object existed.
+   "waitFor times out while no DisableQueueNotify object exists" is therefore the first case, and the configuration in
+   which that load of queueEmptyCounter returned 0 is one with lseen = true and cec = 0: by
+   C11_threads_emptyqueue_true_means_consumed every event settled before the call began has been consumed (or is in
+   the hands of a takeEvent / clearEvents that removed it). *)
+Theorem C11_waitfor_false_means : forall t sh,
+  oqm sh <> Some t -> ofm sh <> Some t ->
+  wkl t (code_of AWaitFor)
+      (fun _ lo => lres lo = false ->
+                   ltimedout lo = true /\
+                   ((lbe lo = true /\ lseen lo = true) \/ (lbe lo = false /\ GenQ.can_notify (lreg lo) = false)))
+      sh lo0.
+Proof. exact waitfor_false_means. Qed.
+Print Assumptions C11_waitfor_false_means.
+
+(* non-vacuity: producer, consumer, and a thread whose waitFor begins after the event was settled and times out on
+   the queue the consumer has emptied: waitFor returns false and the event of its snapshot is among the consumed *)
+Example C11_waitfor_example :
+  let cfg := reached [[AEnqueue 0 11%Z]; [AProcess]; [AWaitFor]] [0; 0; 0; 0; 0; 0; 0; 1; 1; 1; 1; 1; 1; 1; 1; 1; 1] 400 in
+  g_putbacks (shs cfg) = 0 /\ cec (shs cfg) = 0%Z /\
+  existsb (fun a => match a with CRes 2 false => true | _ => false end) (clog (shs cfg)) = true /\
+  match nth_error (ths cfg) 2 with
+  | Some o => length (lsnap (lo o)) = 1 /\ lsnap (lo o) = consumed (shs cfg)
   | None => False
   end.
 Proof. vm_compute. repeat split; reflexivity. Qed.
